@@ -9,7 +9,7 @@ fn main() {
     let col: Vec<String> = vec![String::from("a"), String::from("b"), String::from("c")];
     let it = col.con_iter();
     let mut b = it.buffered_iter(2);
+    let r = it.next();
     let k1 = b.next();
-    drop(it);
     if let Some(x) = k1 { let _n = x.values.count(); }
 }
